@@ -259,6 +259,8 @@ func ruleC12Errors(c *Checker) {
 				exc = p.errorIdiom(fn, ci, ev, nil)
 				// dropped
 				switch {
+				case isInfallibleWrite(ci):
+					c.passTrivial(R, name, construct, pos, "accepted idiom: strings.Builder / bytes.Buffer writes are documented to always return a nil error")
 				case isReadOnlyClose(ci):
 					c.passTrivial(R, name, construct, pos, "accepted idiom: Close of a file opened read-only")
 				case isStderrPrint(ci):
@@ -298,7 +300,19 @@ func ruleC12Errors(c *Checker) {
 					c.fail(R, name, construct, pos, "the error of "+cn+" is only inspected (IsNotExist/sentinel) and otherwise ignored")
 				}
 			default:
-				if exc != "" {
+				sentinel := false
+				if (isFunc(o, "errors", "New") || isFunc(o, "fmt", "Errorf")) && ev.Referrers() != nil {
+					for _, r := range *ev.Referrers() {
+						if st, ok := r.(*ssa.Store); ok {
+							if _, isG := st.Addr.(*ssa.Global); isG {
+								sentinel = true
+							}
+						}
+					}
+				}
+				if sentinel {
+					c.passTrivial(R, name, construct, pos, "a sentinel error value stored in a package-level variable, not the result of an operation")
+				} else if exc != "" {
 					c.passTrivial(R, name, construct, pos, "enumerated idiom: "+exc)
 				} else {
 					c.fail(R, name, construct, pos, "the error result of "+cn+" is not used")
@@ -311,6 +325,15 @@ func ruleC12Errors(c *Checker) {
 	}
 }
 
+// isInfallibleWrite: Write* methods of strings.Builder and bytes.Buffer (always nil error).
+func isInfallibleWrite(ci ssa.CallInstruction) bool {
+	o := calleeObj(ci)
+	if o == nil || !strings.HasPrefix(o.Name(), "Write") {
+		return false
+	}
+	return (recvTypeName(o) == "Builder" && objPkgPath(o) == "strings") || (recvTypeName(o) == "Buffer" && objPkgPath(o) == "bytes")
+}
+
 // isReadOnlyClose: (defer) f.Close() where f comes from os.Open.
 func isReadOnlyClose(ci ssa.CallInstruction) bool {
 	o := calleeObj(ci)
@@ -321,8 +344,43 @@ func isReadOnlyClose(ci ssa.CallInstruction) bool {
 	if len(args) == 0 {
 		return false
 	}
-	cl := callOf(canon(args[0]))
-	return cl != nil && isFunc(calleeObj(cl), "os", "Open")
+	return fileFromOpen(canon(args[0]), 2)
+}
+
+// fileFromOpen: the *os.File value comes from os.Open (read-only), directly or
+// as the result of a module helper all of whose non-nil file results do.
+func fileFromOpen(v ssa.Value, depth int) bool {
+	cl := callOf(v)
+	if cl == nil {
+		if ex, ok := v.(*ssa.Extract); ok {
+			if c2, ok := ex.Tuple.(*ssa.Call); ok {
+				cl = c2
+			}
+		}
+	}
+	if cl == nil {
+		return false
+	}
+	if isFunc(calleeObj(cl), "os", "Open") {
+		return true
+	}
+	g := cl.Common().StaticCallee()
+	if g == nil || len(g.Blocks) == 0 || depth == 0 {
+		return false
+	}
+	n := 0
+	for _, r := range returnsOf(g) {
+		for _, rv := range returnValues(r, 0) {
+			if rv == nil || isNilConst(rv) {
+				continue
+			}
+			n++
+			if !fileFromOpen(canon(rv), depth-1) {
+				return false
+			}
+		}
+	}
+	return n > 0
 }
 
 func isStderrPrint(ci ssa.CallInstruction) bool {
@@ -727,6 +785,72 @@ func ruleC12Closed(c *Checker) {
 		name := p.FuncName(fn)
 		closedT, closedF := closedTestEdges(fn)
 		if len(closedT) == 0 {
+			// the test may live in a private helper that returns only for an open builder (and panics otherwise)
+			var guards []ssa.CallInstruction
+			for _, ci := range callsIn(fn) {
+				if _, isDefer := ci.(*ssa.Defer); isDefer {
+					continue
+				}
+				h := ci.Common().StaticCallee()
+				if h == nil || !p.InModule(h) || h.Parent() != nil || (h.Object() != nil && h.Object().Exported()) {
+					continue
+				}
+				hT, hF := closedTestEdges(h)
+				if len(hT) == 0 {
+					continue
+				}
+				okH := true
+				for _, r := range returnsOf(h) {
+					if !guarded(r.Block(), hF) {
+						okH = false
+					}
+				}
+				for _, e := range hT {
+					pan := false
+					for b := range reachFromEdge(e) {
+						if _, ok := b.Instrs[len(b.Instrs)-1].(*ssa.Panic); ok {
+							pan = true
+						}
+					}
+					if !pan {
+						okH = false
+					}
+				}
+				// the helper itself must not have effects before its test
+				eachInstr(h, func(in ssa.Instruction) {
+					if isEffectInstr(in) && !guarded(in.Block(), hF) {
+						okH = false
+					}
+				})
+				if okH {
+					guards = append(guards, ci)
+				}
+			}
+			if len(guards) > 0 {
+				allPast := true
+				var bad ssa.Instruction
+				eachInstr(fn, func(in ssa.Instruction) {
+					if !isEffectInstr(in) {
+						return
+					}
+					dom := false
+					for _, g := range guards {
+						if dominates(g, in) {
+							dom = true
+						}
+					}
+					if !dom {
+						allPast, bad = false, in
+					}
+				})
+				pos := p.Pos(fn.Pos())
+				if bad != nil {
+					pos = p.Pos(bad.Pos())
+				}
+				c.pass(R, name, "closed builder panics", p.Pos(fn.Pos()), "through helper "+p.FuncName(guards[0].Common().StaticCallee())+", which returns only for an open builder and panics otherwise")
+				c.check(allPast, R, name, "effects after the closed test", pos, "every field write / external call is dominated by the call to the closed-builder guard helper", "an effect can happen before (or without) the closed-builder test")
+				continue
+			}
 			// pure delegation: every effect is a call to an exported Builder method
 			deleg := true
 			eachInstr(fn, func(in ssa.Instruction) {
